@@ -379,6 +379,12 @@ def run(ctx):
     q = m.q(f)
     lj = [c for c in q.calls("load_json") if c.target is not None]
     ctx.check(len(lj) == 1 and not [c for c in q.calls(("unwrap", "expect"))], "snapshot", "order_book_from_json", ctx.loc(f), "order_book_from_json forwards to OrderBook::load_json and propagates the error")
+    # "JSON snapshots written from Python load in Rust and vice versa to the same book": both directions go through the core's
+    # save / load path, so the clause is C07's rule set (writer/reader tables, loader rebuilds index and stamp counter)
+    from . import c07
+    from .c06 import _Prefixed
+    c07.run(_Prefixed(ctx, "snapshot-"))
+
     ctx.assume("PyO3 0.20 argument extraction raises OverflowError for out-of-range integers before the method body runs (trusted)")
 
 
